@@ -28,7 +28,7 @@ func childInit(emptyRuntime bool) []byte {
 var plainBodies = []string{"store", "log", "revert-data", "return-ctx", "selfdestruct-fresh", "selfdestruct-self",
 	"reenter", "loop", "create", "create-empty-code", "create2", "invalid", "returndatacopy-oob"}
 
-var fwdBodies = []string{"fwd-call", "fwd-call-value", "fwd-callcode", "fwd-delegatecall", "fwd-staticcall", "fwd-call-then-store"}
+var fwdBodies = []string{"fwd-call", "fwd-call-value", "fwd-callcode", "fwd-delegatecall", "fwd-staticcall", "fwd-call-then-store", "fwd-call-copy-all"}
 
 func isFwd(b string) bool { return len(b) > 4 && b[:4] == "fwd-" }
 
@@ -59,7 +59,7 @@ func bodyCode(name string, next address) []byte {
 	case "selfdestruct-self":
 		a.op(opADDRESS, opSELFDESTRUCT)
 	case "reenter":
-		a.pushU(0).pushU(0).pushU(0).pushU(0).pushU(0).op(opCALLER, opGAS, opCALL)
+		a.pushU(0x40).pushU(0x40).pushU(0).pushU(0).pushU(0).op(opCALLER, opGAS, opCALL)
 		relayReturn(a)
 	case "loop":
 		a.op(opJUMPDEST).pushU(0).op(opJUMP)
@@ -84,17 +84,19 @@ func bodyCode(name string, next address) []byte {
 		a.pushU(0x20).pushU(0).pushU(0).op(opRETURNDATACOPY)
 		a.op(opSTOP)
 	case "fwd-call":
-		return forwarder(opCALL, 0, next, false)
+		return forwarder(opCALL, 0, next, "")
 	case "fwd-call-value":
-		return forwarder(opCALL, 1, next, false)
+		return forwarder(opCALL, 1, next, "")
 	case "fwd-callcode":
-		return forwarder(opCALLCODE, 0, next, false)
+		return forwarder(opCALLCODE, 0, next, "")
 	case "fwd-delegatecall":
-		return forwarder(opDELEGATECALL, 0, next, false)
+		return forwarder(opDELEGATECALL, 0, next, "")
 	case "fwd-staticcall":
-		return forwarder(opSTATICCALL, 0, next, false)
+		return forwarder(opSTATICCALL, 0, next, "")
 	case "fwd-call-then-store":
-		return forwarder(opCALL, 0, next, true)
+		return forwarder(opCALL, 0, next, "store-after")
+	case "fwd-call-copy-all":
+		return forwarder(opCALL, 0, next, "copy-all")
 	default:
 		panic("harness: unknown body " + name)
 	}
@@ -107,7 +109,7 @@ var outAreaFill = bigHex("eeeeeeeeeeeeeeeeeeeeeeeeeeeeeeeeeeeeeeeeeeeeeeeeeeeeee
 
 // callerCode: contract A.  Performs ONE call/create and makes the result
 // observable: storage[0x10] = result word; returns result ‖ RETURNDATASIZE ‖
-// word of the output area ‖ return data.
+// the 128-byte output area of the call (pre-filled with 0xee).
 func callerCode(op int, value uint64, target address, init []byte) []byte {
 	a := newAsm()
 	switch op {
@@ -119,19 +121,20 @@ func callerCode(op int, value uint64, target address, init []byte) []byte {
 		a.pushU(uint64(len(init))).pushU(0x300).pushU(value).op(byte(op))
 	default:
 		a.op(opCALLDATASIZE).pushU(0).pushU(0x300).op(opCALLDATACOPY)
-		a.push32(outAreaFill).pushU(0x200).op(opMSTORE)
-		a.pushU(0x20).pushU(0x200).op(opCALLDATASIZE).pushU(0x300)
+		for i := uint64(0); i < 4; i++ {
+			a.push32(outAreaFill).pushU(0x200 + 32*i).op(opMSTORE)
+		}
+		a.pushU(0x80).pushU(0x200).op(opCALLDATASIZE).pushU(0x300)
 		if op == opCALL || op == opCALLCODE {
 			a.pushU(value)
 		}
 		a.pushAddr(target).op(opGAS, byte(op))
 	}
+	// storage[0x10] = result; return result ‖ RETURNDATASIZE ‖ output area (fixed size)
 	a.op(opDUP1).pushU(0x10).op(opSSTORE)
-	a.pushU(0).op(opMSTORE)
-	a.op(opRETURNDATASIZE).pushU(0x20).op(opMSTORE)
-	a.pushU(0x200).op(opMLOAD).pushU(0x40).op(opMSTORE)
-	a.op(opRETURNDATASIZE).pushU(0).pushU(0x60).op(opRETURNDATACOPY)
-	a.op(opRETURNDATASIZE).pushU(0x60).op(opADD).pushU(0).op(opRETURN)
+	a.pushU(0x1c0).op(opMSTORE)
+	a.op(opRETURNDATASIZE).pushU(0x1e0).op(opMSTORE)
+	a.pushU(0xc0).pushU(0x1c0).op(opRETURN)
 	if op == opCREATE || op == opCREATE2 {
 		// the init code blob sits behind the code; "blob" must not be a JUMPDEST: patch by hand
 		code := a.b
@@ -287,7 +290,7 @@ func family3Case(s f3Spec, mode string) *txCase {
 		if isFwd(s.BodyB) {
 			leaf, depth = s.BodyC, 3
 			via = map[string]string{"fwd-call": "CALL", "fwd-call-value": "CALL", "fwd-callcode": "CALLCODE", "fwd-delegatecall": "DELEGATECALL",
-				"fwd-staticcall": "STATICCALL", "fwd-call-then-store": "CALL"}[s.BodyB]
+				"fwd-staticcall": "STATICCALL", "fwd-call-then-store": "CALL", "fwd-call-copy-all": "CALL"}[s.BodyB]
 			if s.BodyB == "fwd-staticcall" {
 				static = true
 			}
